@@ -203,6 +203,7 @@ func init() {
 			c.ruleEmittedLength("E3.emitted-length", []string{"pkg/packet/bgp"}, 3)
 			c.ruleAddPathDirection("E6.addpath-direction")
 			c.ruleGuardOrder("E3.guard-order", []string{"pkg/packet/bgp"}, 3)
+			c.ruleDecodedFields("E3.decoded-fields", []string{"pkg/packet/bgp"}, 150)
 		},
 	})
 	register(&Check{
@@ -224,6 +225,7 @@ func init() {
 			c.ruleSplitters()
 			c.ruleGuardOrder("E3.guard-order", []string{"pkg/zebra", "pkg/packet/mrt", "pkg/packet/bmp", "pkg/packet/rtr", "pkg/packet/bfd"}, 5)
 			c.ruleMRTRibFamilies()
+			c.ruleDecodedFields("E3.decoded-fields", []string{"pkg/packet/mrt", "pkg/packet/bmp", "pkg/packet/rtr"}, 20)
 		},
 	})
 }
